@@ -371,7 +371,7 @@ def c10(case, rec=None):
     return multi
 
 
-EXTRA_PROFILES = {"C02": ["fanout", "slices", "fanout", "wide"], "C04": ["fanout", "lutmix"], "C06": ["fanout", "wide"], "C15": ["wide", "slices"]}
+EXTRA_PROFILES = {"C02": ["fanout", "heavy", "cascade", "wide"], "C04": ["fanout", "lutmix"], "C06": ["fanout", "wide"], "C15": ["wide", "slices"]}
 ORACLES = {"C17": c17, "C02": c02, "C04": c04, "C06": c06, "C15": c15, "C10": c10}
 
 
